@@ -11,7 +11,12 @@ import Model.Util
       `_raise_if_errors`), the replies readable from the pipe, the commands queued behind a
       sleeping command, the per-command counters the fault script refers to;
     * the global `error_queue`;
-    * `_poll_pipe_envs`, the `recv` loops, `_raise_if_errors`, `set_attr`, `close`/`close_extras`.
+    * `_poll_pipe_envs`, the `recv` loops, `_raise_if_errors`, `set_attr`, `close`/`close_extras`;
+    * the synchronous wrappers `reset()`, `step()`, `call()` (= `get_attr()`, `render()`) as
+      `X_async` followed by `X_wait()`; garbage collection of an unclosed environment is
+      `close(terminate=True)` (`__del__`).
+  A wait's / close's `timed` flag stands for ANY timeout value, 0 included: `_poll_pipe_envs` polls
+  for every `timeout is not None`.
 
   Explicit ASSUMPTIONS (OS / runtime behaviour, not derived; validated only by fault injection):
     A1  a live worker answers a command "at once" (before the parent's next call);
@@ -24,13 +29,21 @@ import Model.Util
     A5  `recv` from a live, idle worker with nothing buffered blocks forever (outcome `hang`);
         `error_queue.get()` on an empty queue blocks forever;
     A6  `Process.terminate()` ends a live or sleeping worker; `join` returns iff the process ends;
-    A7  errors of one batch enter the error queue in worker order.
+    A7  errors of one batch enter the error queue in worker order;
+    A8  a worker's exception object survives the trip through the error queue and is re-raised with
+        its own type (pickling / constructor signatures are NOT modelled; harness/c13.py sweeps
+        exception classes and has two probes for the classes the current tree mishandles);
+    A9  a `stuck` sub-environment never comes back: only a poll with a timeout, `terminate()` or
+        SIGKILL gets past it; a blocking `recv` / `join` on it never returns (outcome `hang`).
 
   `fixed = false` is the code before fixes/C13-close-after-worker-death.diff, `fixed = true` the
   repaired code: every `*_wait` sets `_state = DEFAULT` as soon as its timeout check has passed (so
   no failure while receiving can leave a pending state behind), and `close_extras` treats a dead
   pipe (EOFError / OSError) as "terminate everybody", logs any other error of the pending call, and
   always closes the pipes and joins the processes.
+  `fix2 = false` is the current tree, `fix2 = true` the code with
+  fixes/C13-close-timeout-and-interrupt.diff: `close(timeout=t)` polls before each `recv` of the
+  shutdown handshake and joins with the remaining budget, terminating whoever is still alive.
 -/
 namespace VecProto
 
@@ -41,7 +54,8 @@ deriving DecidableEq, Repr
 inductive Cmd | reset | step | call | setattr | close
 deriving DecidableEq, Repr
 
-inductive Fault | raise (t : Nat) | sleep | kill
+/-- `stuck` = a sleep that never ends (a sub-environment blocked for good) -/
+inductive Fault | raise (t : Nat) | sleep | kill | stuck
 deriving DecidableEq, Repr
 
 /-- at the `at`-th (0-based) `cmd` executed by this worker do `kind` -/
@@ -84,6 +98,7 @@ structure Worker where
   pipeOpen : Bool := true          -- parent's end: `false` = `None`/closed
   inbox : List Reply := []         -- replies the parent can `recv` now
   backlog : List Cmd := []         -- commands queued behind a sleeping command
+  forever : Bool := false          -- the sleep it is in never ends (`stuck`)
   cReset : Nat := 0
   cStep : Nat := 0
   cCall : Nat := 0
@@ -115,6 +130,7 @@ def Worker.run (w : Worker) (c : Cmd) : Worker × ErrQ :=
     | some (.raise t) => ({ w1 with st := .exited, inbox := w1.inbox ++ [.failR] }, [(w.idx, t)])
     | some .kill => ({ w1 with st := .exited }, [])
     | some .sleep => ({ w1 with st := .hung, backlog := [c] }, [])      -- head = the sleeping command
+    | some .stuck => ({ w1 with st := .hung, backlog := [c], forever := true }, [])
 
 /-- run queued commands while the worker stays alive; what is left stays queued if it sleeps again -/
 def Worker.runList (w : Worker) : List Cmd → Worker × ErrQ
@@ -150,7 +166,9 @@ def Worker.drain : Nat → Worker → Worker × ErrQ
   | 0, w => (w, [])
   | n + 1, w =>
     match w.st with
-    | .hung => let (w1, e1) := w.wake; let (w2, e2) := Worker.drain n w1; (w2, e1 ++ e2)
+    | .hung =>
+      if w.forever then (w, [])
+      else let (w1, e1) := w.wake; let (w2, e2) := Worker.drain n w1; (w2, e1 ++ e2)
     | _ => (w, [])
 
 /-- one step of a loop over the workers: new worker, errors it put on the queue meanwhile,
@@ -191,10 +209,12 @@ def Worker.recv (w : Worker) : Worker × ErrQ × Recv :=
       | .exited => (w, [], .eof)
       | .alive => (w, [], .block)
       | .hung =>
-        let (w1, e1) := w.wake
-        match w1.inbox with
-        | r :: rest => ({ w1 with inbox := rest }, e1, .got r)
-        | [] => (w1, e1, .block)
+        if w.forever then (w, [], .block)
+        else
+          let (w1, e1) := w.wake
+          match w1.inbox with
+          | r :: rest => ({ w1 with inbox := rest }, e1, .got r)
+          | [] => (w1, e1, .block)
 
 /-- what decoding a reply as the payload of `expected` raises (`none` = decodes fine):
     `reset_wait` → `_add_info(infos, info, i)` needs a dict; `step_wait` → `ret[0][agent]` -/
@@ -245,6 +265,7 @@ def countFail (rs : List Reply) : Nat := rs.count .failR
 
 structure State where
   fixed : Bool := true
+  fix2 : Bool := true              -- `close(timeout=…)` also bounds its handshake and `join`
   astate : AState := .default
   closed : Bool := false
   ws : List Worker := []
@@ -300,6 +321,13 @@ def waitOp (s : State) (expected : AState) (timed : Bool) : State × Outcome :=
   else if s.astate ≠ expected then (s, .err .noAsyncCall)
   else waitCore s (cmdOf expected) timed
 
+/-- the synchronous wrappers `reset()`, `step()`, `call()` (and `get_attr()`, `render()`, which
+    are `call`): `X_async(...)` then `X_wait()` without timeout -/
+def syncOp (s : State) (c : Cmd) (a : AState) : State × Outcome :=
+  match asyncOp s c a with
+  | (s1, .ok) => waitOp s1 a false
+  | r => r
+
 def setAttrOp (s : State) : State × Outcome :=
   if s.closed then (s, .err .closedEnv)
   else if s.astate ≠ .default then (s, .err .alreadyPending)
@@ -318,14 +346,29 @@ def closeFail (s : State) (o : Outcome) : State × Outcome :=
   | .hang => (s, .hang)
   | _ => if s.fixed then ({ s with ws := terminateAll s.ws, closed := true }, .ok) else (s, o)
 
+/-- `fix2`: `if not pipe.poll(remaining): terminate = True; break` before each `pipe.recv()` of
+    the close handshake — a pipe with nothing to read stops the loop instead of blocking -/
+def recvReadyOne (w : Worker) : StepRes :=
+  if w.pipeOpen = false then (w, [], none, none)
+  else if w.ready = false then (w, [], none, some (.err .timeout))
+  else recvOne (fun _ => none) w
+
 /-- the graceful branch of `close_extras` (send `close`, receive one reply per open pipe), then
-    `pipe.close()` / `process.join()` for every worker -/
-def closeTail (s : State) (terminate : Bool) : State × Outcome :=
+    `pipe.close()` / `process.join()` for every worker.
+    With `fix2` and a timeout the handshake polls before it receives, and
+    `join(remaining)`; whoever is still alive then is terminated (A6): everybody ends. -/
+def closeTail (s : State) (timed terminate : Bool) : State × Outcome :=
   if terminate then ({ s with ws := terminateAll s.ws, closed := true }, .ok)
   else
     match mapUntil sendCloseOne s.ws with
     | (ws1, e1, _, some o) => closeFail { s with ws := ws1, errq := s.errq ++ e1 } o
     | (ws1, e1, _, none) =>
+      if timed && s.fix2 then
+        match mapUntil recvReadyOne ws1 with
+        | (ws2, e2, _, some .hang) => ({ s with ws := ws2, errq := s.errq ++ e1 ++ e2 }, .hang)
+        | (ws2, e2, _, _) =>
+          ({ s with ws := terminateAll ws2, errq := s.errq ++ e1 ++ e2, closed := true }, .ok)
+      else
       match mapUntil recvCloseOne ws1 with
       | (ws2, e2, _, some o) => closeFail { s with ws := ws2, errq := s.errq ++ e1 ++ e2 } o
       | (ws2, e2, _, none) =>
@@ -337,18 +380,18 @@ def closeTail (s : State) (terminate : Bool) : State × Outcome :=
 /-- `close(timeout=…, terminate=…)`; `timed` = a timeout was given -/
 def closeOp (s : State) (timed terminate : Bool) : State × Outcome :=
   if s.closed then (s, .ok)
-  else if s.astate = .default then closeTail s terminate
+  else if s.astate = .default then closeTail s timed terminate
   else
     -- `function = getattr(self, f"{state}_wait"); function(timeout)`  (timeout = 0 if terminate)
     match waitCore s (cmdOf s.astate) (timed || terminate) with
-    | (s1, .ok) => closeTail s1 terminate
-    | (s1, .err .timeout) => closeTail s1 true
+    | (s1, .ok) => closeTail s1 timed terminate
+    | (s1, .err .timeout) => closeTail s1 timed true
     | (s1, .hang) => (s1, .hang)
     | (s1, .err x) =>
       if s.fixed then
         -- a dead pipe forces termination; a worker's own exception is logged and the rest is
         -- shut down gracefully
-        closeTail s1 (terminate || x = .eof || x = .brokenPipe)
+        closeTail s1 timed (terminate || x = .eof || x = .brokenPipe)
       else (s1, .err x)
 
 inductive Op
@@ -357,6 +400,7 @@ inductive Op
   | callAsync | callWait (timed : Bool)
   | setAttr
   | close (timed terminate : Bool)
+  | resetSync | stepSync | callSync     -- `reset()`, `step()`, `call()` / `get_attr()` / `render()`
 deriving DecidableEq, Repr
 
 def State.step (s : State) : Op → State × Outcome
@@ -368,6 +412,9 @@ def State.step (s : State) : Op → State × Outcome
   | .callWait t => waitOp s .wcall t
   | .setAttr => setAttrOp s
   | .close t k => closeOp s t k
+  | .resetSync => syncOp s .reset .wreset
+  | .stepSync => syncOp s .step .wstep
+  | .callSync => syncOp s .call .wcall
 
 /-- a `hang` never returns: nothing after it is executed -/
 def State.runOps (s : State) : List Op → State × List Outcome
@@ -381,8 +428,8 @@ def mkWorkers (n : Nat) (script : List (Nat × FaultAt)) : List Worker :=
   (List.range n).map (fun i =>
     { idx := i, faults := (script.filter (fun p => p.1 = i)).map (·.2) })
 
-def init (fixed : Bool) (n : Nat) (script : List (Nat × FaultAt)) : State :=
-  { fixed := fixed, ws := mkWorkers n script }
+def init (fixed : Bool) (n : Nat) (script : List (Nat × FaultAt)) (fix2 : Bool := true) : State :=
+  { fixed := fixed, fix2 := fix2, ws := mkWorkers n script }
 
 end VecProto
 
@@ -423,6 +470,11 @@ def parseCmd? : String → Option Cmd
 def parseBool? : String → Option Bool
   | "0" => some false | "1" => some true | _ => none
 
+/-- code variant: 0 = before the fixes, 1 = close survives worker death, 2 = … and `close(timeout)`
+    bounds its handshake and join -/
+def parseVariant? : String → Option (Bool × Bool)
+  | "0" => some (false, false) | "1" => some (true, false) | "2" => some (true, true) | _ => none
+
 /-- `w cmd at kind arg` quintuples -/
 def parseScript? : List String → Option (List (Nat × FaultAt))
   | [] => some []
@@ -433,6 +485,7 @@ def parseScript? : List String → Option (List (Nat × FaultAt))
       | "raise" => some ((w, { cmd := c, at_ := a, kind := .raise x }) :: tl)
       | "sleep" => some ((w, { cmd := c, at_ := a, kind := .sleep }) :: tl)
       | "kill" => some ((w, { cmd := c, at_ := a, kind := .kill }) :: tl)
+      | "stuck" => some ((w, { cmd := c, at_ := a, kind := .stuck }) :: tl)
       | _ => none
     | _, _, _, _, _ => none
   | _ => none
@@ -442,6 +495,9 @@ def parseOp? : List String → Option Op
   | ["step_async"] => some .stepAsync
   | ["call_async"] => some .callAsync
   | ["set_attr"] => some .setAttr
+  | ["reset"] => some .resetSync
+  | ["step"] => some .stepSync
+  | ["call"] => some .callSync
   | ["reset_wait", t] => (parseBool? t).map .resetWait
   | ["step_wait", t] => (parseBool? t).map .stepWait
   | ["call_wait", t] => (parseBool? t).map .callWait
@@ -453,11 +509,11 @@ def parseOp? : List String → Option Op
 
 def step (s : IOState) : List String → IOState × String
   | "new" :: f :: n :: rest =>
-    match parseBool? f, parseNat? n, parseScript? rest with
-    | some f, some n, some sc =>
+    match parseVariant? f, parseNat? n, parseScript? rest with
+    | some (f, f2), some n, some sc =>
       if n = 0 then (s, "reject")                  -- the real constructor needs ≥ 1 env_fn
       else if sc.any (fun p => p.1 ≥ n) then (s, "bad-op")
-      else ({ st := init f n sc, hung := false }, "ok")
+      else ({ st := init f n sc f2, hung := false }, "ok")
     | _, _, _ => (s, "bad-op")
   | "op" :: ws =>
     match parseOp? ws with
